@@ -1958,6 +1958,7 @@ fn to_walk_case(c: &Case) -> Option<super::walk::Case> {
         mods: vec![(c.base, MODULE_SIZE, "mod".into())],
         syms: vec![("mod".into(), recs)],
         symraw: vec![],
+        be: false,
         extra: vec![],
     })
 }
